@@ -38,8 +38,13 @@ def par(cmd, text, env=None, timeout=14400, nproc=None, heavy=False):
     import threading
     outs = [None] * len(chunks)
     def feed(k):
-        o, er = procs[k].communicate(("\n".join(chunks[k]) + "\n").encode(), timeout=timeout)
-        outs[k] = (procs[k].returncode, o.decode("utf-8", "replace"), er.decode("utf-8", "replace"))
+        try:
+            o, er = procs[k].communicate(("\n".join(chunks[k]) + "\n").encode(), timeout=timeout)
+            outs[k] = (procs[k].returncode, o.decode("utf-8", "replace"), er.decode("utf-8", "replace"))
+        except subprocess.TimeoutExpired:
+            procs[k].kill()
+            procs[k].communicate()
+            outs[k] = (124, "", "timeout")
     th = [threading.Thread(target=feed, args=(k,)) for k in range(len(chunks))]
     for t in th:
         t.start()
@@ -54,7 +59,10 @@ def sh(cmd, cwd=None, env=None, stdin=None, timeout=None):
     e["CARGO_NET_OFFLINE"] = "true"
     if env:
         e.update(env)
-    p = subprocess.run(cmd, cwd=cwd, env=e, input=stdin, stdout=subprocess.PIPE, stderr=subprocess.PIPE, timeout=timeout)
+    try:
+        p = subprocess.run(cmd, cwd=cwd, env=e, input=stdin, stdout=subprocess.PIPE, stderr=subprocess.PIPE, timeout=timeout)
+    except subprocess.TimeoutExpired:
+        return 124, "", "timeout"
     return p.returncode, p.stdout.decode("utf-8", "replace"), p.stderr.decode("utf-8", "replace")
 
 
@@ -269,7 +277,7 @@ def canon(line, policy):
     return line
 
 
-def run_stream(ctx, name, gen_args, policy="okerr", oracle=None, pm=PM, ops=None, nontrivial=None, gen_pm=PM, heavy=False, impl_lines=None):
+def run_stream(ctx, name, gen_args, policy="okerr", oracle=None, pm=PM, ops=None, nontrivial=None, gen_pm=PM, heavy=False, impl_lines=None, timeout=None):
     """generate ops, run implementation and model, diff, run oracle"""
     os.makedirs(RUN, exist_ok=True)
     tag = "%s_%s_%d" % (ctx.pid, name, os.getpid())
@@ -304,12 +312,15 @@ def run_stream(ctx, name, gen_args, policy="okerr", oracle=None, pm=PM, ops=None
     if impl_lines is not None:
         rc, impl, err = 0, "\n".join(impl_lines) + "\n", ""
     else:
-        rc, impl, err = par([pm, "exec"], ops, timeout=14400, heavy=heavy)
+        rc, impl, err = par([pm, "exec"], ops, timeout=timeout or (14400 if ctx.tier == "thorough" else 3600), heavy=heavy)
     if rc != 0:
-        # the process died (abort / signal): bisect to the offending line
+        # the process died (abort / signal) or did not finish: bisect to the offending line
         lines = ops.splitlines()
-        bad = find_crash(pm, lines)
-        ctx.o_fail.append({"stream": name, "op": bad, "impl": "process-died rc=%d" % rc, "clause": "no abort / crash", "key": "%s/crash" % name})
+        hang = rc == 124
+        bad = find_crash(pm, lines, step_timeout=max(30, (timeout or 3600) // 4) if hang else 3600)
+        ctx.o_fail.append({"stream": name, "op": bad, "impl": ("did-not-terminate" if hang else "process-died rc=%d" % rc),
+                           "clause": ("the operation does not terminate on this input (no result, no error)" if hang else "no abort / crash"),
+                           "key": "%s/%s" % (name, "hang" if hang else "crash")})
         return
     rc, model, err2 = par([DRIVER], ops, env={"LEAN_STACK_SIZE": "1048576"}, timeout=14400)
     if rc != 0:
@@ -382,12 +393,12 @@ def run_stream(ctx, name, gen_args, policy="okerr", oracle=None, pm=PM, ops=None
         pass
 
 
-def find_crash(pm, lines):
+def find_crash(pm, lines, step_timeout=3600):
     lo, hi = 0, len(lines)
     # linear chunks then bisect
     while hi - lo > 1:
         mid = (lo + hi) // 2
-        rc, _, _ = sh([pm, "exec"], stdin=("\n".join(lines[lo:mid]) + "\n").encode(), timeout=3600)
+        rc, _, _ = sh([pm, "exec"], stdin=("\n".join(lines[lo:mid]) + "\n").encode(), timeout=step_timeout)
         if rc != 0:
             hi = mid
         else:
@@ -427,7 +438,7 @@ def memcheck(ctx, name, lines, pm=PM):
     if not shutil.which("valgrind") or not lines:
         ctx.note("memcheck skipped (valgrind not available or nothing to run)")
         return
-    vg = ["valgrind", "-q", "--error-exitcode=97", "--leak-check=no", pm, "exec"]
+    vg = ["valgrind", "-q", "--error-exitcode=97", "--leak-check=full", "--errors-for-leak-kinds=definite", pm, "exec"]
     n = min(16, os.cpu_count() or 4, max(1, len(lines) // 8))
     size = (len(lines) + n - 1) // n
     chunks = [lines[i:i + size] for i in range(0, len(lines), size)]
@@ -453,6 +464,8 @@ def memcheck(ctx, name, lines, pm=PM):
         if rc == 0:
             continue
         bad += 1
+        if bad > 2:
+            continue        # one or two bisected failing inputs are enough; the rest is counted
         if rc == -9:
             ctx.note("memcheck chunk timed out (%d lines)" % len(c))
             continue
@@ -467,7 +480,7 @@ def memcheck(ctx, name, lines, pm=PM):
         first = [l for l in detail.splitlines() if "==" in l][:6]
         be = (cur[0].split(" ") + ["?", "?"])[1]
         ctx.o_fail.append({"stream": name + "/memcheck", "op": cur[0], "impl": " | ".join(x.split("== ", 1)[-1] for x in first)[:600], "model": "-",
-                           "clause": "valgrind memcheck reports an invalid memory access / use of uninitialised memory while the library processes this input",
+                           "clause": "valgrind memcheck reports an invalid memory access, use of uninitialised memory, invalid / double free or a definitely lost block (an owned C object that is never freed) while the library processes this input",
                            "key": "%s/memcheck" % be})
     ctx.cov["streams"][name + "/memcheck"] = {"ops": len(lines), "chunks": len(chunks), "chunks_with_errors": bad, "tool": "valgrind memcheck (supporting run, not a proof)"}
     print("  memcheck %-12s ops=%d chunks=%d errors=%d" % (name, len(lines), len(chunks), bad), flush=True)
